@@ -59,6 +59,9 @@ type SharedState struct {
 	Peers []peer.ID
 	// FailLog makes LogPin/LogUnpin fail (nothing stored) when it returns an error.
 	FailLog func(kind string, p *api.Pin) error
+	// AfterLog, when set, is called (outside the lock) after a pin/unpin was stored:
+	// this is where a real consensus component hands the change to the pin trackers.
+	AfterLog func(kind string, p *api.Pin)
 }
 
 // NewSharedState creates an empty pinset on an in-memory datastore.
@@ -124,6 +127,15 @@ func (c *FakeConsensus) Ready(context.Context) <-chan struct{} {
 }
 
 func (c *FakeConsensus) log(kind string, p *api.Pin) error {
+	err := c.logLocked(kind, p)
+	if err == nil && c.S.AfterLog != nil {
+		cp := *p
+		c.S.AfterLog(kind, &cp)
+	}
+	return err
+}
+
+func (c *FakeConsensus) logLocked(kind string, p *api.Pin) error {
 	s := c.S
 	s.mu.Lock()
 	defer s.mu.Unlock()
